@@ -3585,6 +3585,11 @@ class TLSConnection(TLSRecordLayer):
         if real_version >= (3, 3):
             ext = clientHello.getExtension(ExtensionType.supported_versions)
             if ext:
+                if not ext.versions:
+                    for result in self._sendError(
+                            AlertDescription.decode_error,
+                            "Empty supported_versions extension"):
+                        yield result
                 for v in ext.versions:
                     if v in KNOWN_VERSIONS and v > real_version:
                         real_version = v
@@ -4338,6 +4343,14 @@ class TLSConnection(TLSRecordLayer):
                     else:
                         break
                 clientHello = result
+
+                if clientHello.extensions:
+                    ext_types = [i.extType for i in clientHello.extensions]
+                    if len(ext_types) != len(set(ext_types)):
+                        for result in self._sendError(
+                                AlertDescription.illegal_parameter,
+                                "Duplicate extension in Client Hello"):
+                            yield result
 
                 # verify that the new key share is present
                 ext = clientHello.getExtension(ExtensionType.key_share)
